@@ -142,7 +142,10 @@ def run(rep, tier, only=None):
             # two doc attributes on one item
             for w1, w2 in (("x", "x"), ("x", "n"), ("sf", "x"), ("x", "qqq"), ("nx", "x"), ("x", "b")):
                 cases.append((lang, pos, (w1, w2)))
-    rep.bounds = {"doc strings": "class words up to length %d over {newline * / \" ' \\ # ` space other}; `other` is a symbolic letter/digit; 1-2 doc attributes" % (2 if tier == "quick" else 3),
+            # several doc lines with empty / blank lines between paragraphs
+            for multi in (("x", "", "x"), ("x", "", "x", "x"), ("", "x"), ("x", ""), ("x", "w", "x"), ("x", "x", "x"), ("x", "", "", "x")):
+                cases.append((lang, pos, multi))
+    rep.bounds = {"doc strings": "class words up to length %d over {newline * / \" ' \\ # ` space other}; `other` is a symbolic letter/digit; 1-2 doc attributes, plus 2-4 doc lines with empty or blank lines between them" % (2 if tier == "quick" else 3),
                   "positions": POSITIONS, "languages": LANGS}
     rep.outside = ["doc strings longer than the bound", "`///` vs `/** */` spelling (both reach typeshare as #[doc = ..] values; handled by syn)"]
     rep.assumptions = ["comment lexers of vlib/lexers.py (line/block comments, nested for Kotlin/Swift/Scala, string literals, Python docstrings as statement-level strings)"]
